@@ -13,16 +13,26 @@
 (***************************************************************************)
 EXTENDS RebinOps, TLC, Json
 CONSTANTS NM, SampleMod, SampleRes
-VARIABLES tab, list, stored, fmt, na, conv
-vars == <<tab, list, stored, fmt, na, conv>>
+VARIABLES tab, list, stored, fmt, na, gsel, conv
+vars == <<tab, list, stored, fmt, na, gsel, conv>>
 
 GX == <<2, 4, 6, 8, 12, 14, 16, 20>>
+\* a second grid with the same length and end points but other interior nodes: in a per-file package every SED may
+\* come on its own grid (gsel[m] picks it); a cube has one grid for all models
+GX2 == <<2, 4, 8, 10, 12, 16, 18, 20>>
+GridOf(m) == IF fmt = "perfile" /\ gsel[m] = 2 THEN GX2 ELSE GX
 Filters == << [fx |-> <<3, 5, 6>>, fy |-> <<0, 2, 1>>],        \* inside the grid, zero / non-zero edges
               [fx |-> <<10, 13, 17, 22>>, fy |-> <<1, 3, 3, 0>>] >>   \* sticks out of the grid at the top
 Fl(m, a, i) == 1 + ((7 * m + 3 * a + 5 * i) % 9)
 Er(m, a, i) == 1 + ((m + 2 * a + i) % 4)
-ConvFlux(m, a, f) == Conv([i \in 1..Len(GX) |-> Fl(m, a, i)], Rebin(Filters[f].fx, Filters[f].fy, GX))
-ConvErr2(m, a, f) == Err2([i \in 1..Len(GX) |-> Er(m, a, i)], Rebin(Filters[f].fx, Filters[f].fy, GX))
+\* binned responses per (filter, grid): constant-level, evaluated once by TLC
+RBTab == [f \in 1..Len(Filters) |-> <<Rebin(Filters[f].fx, Filters[f].fy, GX), Rebin(Filters[f].fx, Filters[f].fy, GX2)>>]
+GIdx(m) == IF fmt = "perfile" /\ gsel[m] = 2 THEN 2 ELSE 1
+\* convolved values per (model, aperture, filter, grid): constant-level table
+CFTab == [m \in 1..NM |-> [a \in 1..2 |-> [f \in 1..Len(Filters) |-> [g \in 1..2 |->
+            [flux |-> Conv([i \in 1..Len(GX) |-> Fl(m, a, i)], RBTab[f][g]), err2 |-> Err2([i \in 1..Len(GX) |-> Er(m, a, i)], RBTab[f][g])]]]]]
+ConvFlux(m, a, f) == CFTab[m][a][f][GIdx(m)].flux
+ConvErr2(m, a, f) == CFTab[m][a][f][GIdx(m)].err2
 
 Perms == {p \in [1..NM -> 1..NM] : \A x, y \in 1..NM : x # y => p[x] # p[y]}
 \* np.argsort of a sequence of distinct model ids (ids are ordered like their names)
@@ -32,6 +42,7 @@ OrderToMatch(array, ref) == LET a == ArgSort(array)  r == ArgSort(ArgSort(ref)) 
 
 Init == /\ tab \in Perms /\ list \in Perms /\ stored \in [1..NM -> {"asc", "desc"}]
         /\ fmt \in {"perfile", "cube"} /\ na \in {1, 2} /\ conv = <<>>
+        /\ gsel \in {<<1, 1, 1>>, <<1, 2, 1>>, <<2, 1, 2>>}
 \* ALGORITHM LAYER.  per-file: one row per SED file in listing order (the reader puts each spectrum in
 \* increasing frequency whatever the stored order), then rows re-ordered to the parameter table by name;
 \* cube: rows in cube order, refused unless that is the table order.
@@ -42,7 +53,7 @@ Convolve ==
              THEN (IF list = tab THEN [f \in 1..Len(Filters) |-> [k \in 1..NM |-> Row(list[k], f)]] ELSE <<"refused">>)
              ELSE LET ord == OrderToMatch(list, tab)
                   IN  [f \in 1..Len(Filters) |-> [k \in 1..NM |-> Row(list[ord[k]], f)]]
-  /\ UNCHANGED <<tab, list, stored, fmt, na>>
+  /\ UNCHANGED <<tab, list, stored, fmt, na, gsel>>
 Next == Convolve
 Spec == Init /\ [][Next]_vars
 
@@ -54,12 +65,12 @@ OrderFollowsTable == Done => \A f \in 1..Len(Filters), k \in 1..NM : conv[f][k].
 CubeRefusesMismatch == (conv = <<"refused">>) <=> (conv # <<>> /\ fmt = "cube" /\ list # tab)
 \* distinctness: a wrong model / aperture in a row would be visible
 CellsDistinct == \A f \in 1..Len(Filters) : \A m1, m2 \in 1..NM, a1, a2 \in 1..2 :
-                    (m1 # m2 \/ a1 # a2) => ConvFlux(m1, a1, f) # ConvFlux(m2, a2, f)
+                    (m1 # m2 \/ a1 # a2) => CFTab[m1][a1][f][1].flux # CFTab[m2][a2][f][1].flux
 
 RECURSIVE Sum(_)
 Sum(s) == IF s = <<>> THEN 0 ELSE Head(s) + Sum(Tail(s))
-Checksum == Sum([k \in 1..NM |-> tab[k] * k * 3 + list[k] * (k + 4) * 5 + (IF stored[k] = "asc" THEN k ELSE 0)]) + na + (IF fmt = "cube" THEN 7 ELSE 0)
+Checksum == Sum([k \in 1..NM |-> tab[k] * k * 3 + list[k] * (k + 4) * 5 + (IF stored[k] = "asc" THEN k ELSE 0) + gsel[k] * k]) + na + (IF fmt = "cube" THEN 7 ELSE 0)
 EmitInv == (conv # <<>> /\ Checksum % SampleMod = SampleRes) =>
-             PrintT(ToJson([tab |-> tab, list |-> list, stored |-> stored, fmt |-> fmt, na |-> na,
+             PrintT(ToJson([tab |-> tab, list |-> list, stored |-> stored, fmt |-> fmt, na |-> na, gsel |-> gsel,
                             refused |-> (conv = <<"refused">>), conv |-> IF conv = <<"refused">> THEN <<>> ELSE conv]))
 =============================================================================
